@@ -794,6 +794,133 @@ example :
         .cu 0 "foo", .rng 1, .set 0 5 1]).2
       = [.made 1, .done, .err .attr, .err .value, .flag true, .err .index] := by decide +kernel
 
+/-! ### Round 4: sibling types, container independence, the branches of the dispatch, homogeneity -/
+
+/-- The record update by which `Gen.Units.allTypes` makes a subtype out of its base type. -/
+def renamed (B : UType) (n : String) (lo hi : Bound) : UType := { B with name := n, min := lo, max := hi }
+
+/-- OVERRIDE GAP, model side: a subtype (its base type under another name and with its own limits) converts
+    exactly like the base type: `to_unit`, `to_ip`, `to_si`, unit acceptance and the Header test give the same
+    answer on every input.  (The translator refuses a subtype that overrides a formula or a table; the check runs
+    every ordered pair of every subtype against this model.) -/
+theorem C06_subtype_converts_like_base (B : UType) (n : String) (lo hi : Bound) (xs : List Rat) (u v : String) :
+    (renamed B n lo hi).toUnit xs v u = B.toUnit xs v u ∧
+    (renamed B n lo hi).toIp xs u = B.toIp xs u ∧
+    (renamed B n lo hi).toSi xs u = B.toSi xs u ∧
+    (renamed B n lo hi).acceptable u = B.acceptable u ∧
+    Coll.headerOk (renamed B n lo hi) u = Coll.headerOk B u := ⟨rfl, rfl, rfl, rfl, rfl⟩
+
+/-- Every type of the regenerated registry is a base type or a renamed base type. -/
+theorem C06_all_types_base_or_renamed (pi : Rat) (T : UType) (h : T ∈ Gen.Units.allTypes pi) :
+    T ∈ Gen.Units.baseTypes pi ∨ ∃ B ∈ Gen.Units.baseTypes pi, ∃ n lo hi, T = renamed B n lo hi := by
+  unfold Gen.Units.allTypes at h
+  rcases List.mem_append.mp h with h | h
+  · exact Or.inl h
+  · right
+    obtain ⟨⟨n, p, lo, hi⟩, _, hx⟩ := List.mem_filterMap.mp h
+    cases hf : (Gen.Units.baseTypes pi).find? (·.name = p) with
+    | none => simp [hf] at hx
+    | some B =>
+      simp only [hf, Option.map_some, Option.some.injEq] at hx
+      exact ⟨B, List.mem_of_find?_eq_some hf, n, lo, hi, hx.symm⟩
+
+/-- SIBLINGS AGREE: every one of the 109 types converts like one of the base types, on every value list and every
+    pair of unit strings (listed or not): siblings of one base type cannot differ from each other. -/
+theorem C06_siblings_agree (pi : Rat) (T : UType) (h : T ∈ Gen.Units.allTypes pi) :
+    ∃ B ∈ Gen.Units.baseTypes pi, ∀ (xs : List Rat) (u v : String),
+      T.toUnit xs v u = B.toUnit xs v u ∧ T.toIp xs u = B.toIp xs u ∧ T.toSi xs u = B.toSi xs u := by
+  rcases C06_all_types_base_or_renamed pi T h with hb | ⟨B, hB, n, lo, hi, rfl⟩
+  · exact ⟨T, hb, fun _ _ _ => ⟨rfl, rfl, rfl⟩⟩
+  · exact ⟨B, hB, fun xs u v => ⟨rfl, rfl, rfl⟩⟩
+
+/-- CONTAINER INDEPENDENCE / NO ALIASING between elements and between calls (any type, any unit strings): when
+    `to_unit` answers at all, there is ONE function of a single number such that the answer for EVERY value list is
+    that function applied to each element.  So the answer for a list is the list of the answers for its elements,
+    in order and of the same length (tuple, list, array: the same data), it does not depend on what was asked
+    before, and two equal inputs give equal outputs. -/
+theorem C06_to_unit_pointwise (T : UType) (u v : String) (xs ys : List Rat) (h : T.toUnit xs v u = .ok ys) :
+    ∃ g : Rat → Rat, ys = xs.map g ∧ ∀ zs, T.toUnit zs v u = .ok (zs.map g) := by
+  unfold UType.toUnit at h
+  cases h1 : T.legFrom u xs with
+  | error e => simp [h1] at h
+  | ok w =>
+    simp only [h1] at h
+    obtain ⟨g1, hw, hg1⟩ := UType.legFrom_pointwise T u xs w h1
+    obtain ⟨g2, hy, hg2⟩ := UType.legTo_pointwise T v w ys h
+    refine ⟨g2 ∘ g1, ?_, fun zs => ?_⟩
+    · rw [hy, hw, List.map_map]
+    · unfold UType.toUnit
+      rw [hg1 zs]
+      simp only []
+      rw [hg2 (zs.map g1), List.map_map]
+
+/-- ... hence splitting a list, converting the parts and joining them is converting the whole list. -/
+theorem C06_to_unit_append (T : UType) (u v : String) (xs zs ys : List Rat) (h : T.toUnit (xs ++ zs) v u = .ok ys) :
+    ∃ a b, T.toUnit xs v u = .ok a ∧ T.toUnit zs v u = .ok b ∧ ys = a ++ b := by
+  obtain ⟨g, hy, hg⟩ := C06_to_unit_pointwise T u v (xs ++ zs) ys h
+  exact ⟨xs.map g, zs.map g, hg xs, hg zs, by rw [hy, List.map_append]⟩
+
+/-- THE BRANCHES OF `_to_unit_base` (any type): both units the base unit: the list comes back as it is; `from_unit`
+    the base unit: only the second leg runs; target the base unit: only the first leg runs (and its refusal is the
+    refusal of the call); a refused first leg is the answer whatever the target is. -/
+theorem C06_dispatch_branches (T : UType) (xs : List Rat) (u v : String) :
+    T.toUnit xs T.base T.base = .ok xs ∧
+    T.toUnit xs v T.base = T.legTo v xs ∧
+    T.toUnit xs T.base u = T.legFrom u xs ∧
+    (∀ e, T.legFrom u xs = .error e → T.toUnit xs v u = .error e) := by
+  refine ⟨by simp [UType.toUnit, UType.legFrom, UType.legTo], by simp [UType.toUnit, UType.legFrom], ?_, ?_⟩
+  · unfold UType.toUnit
+    cases T.legFrom u xs <;> simp [UType.legTo]
+  · intro e he
+    simp [UType.toUnit, he]
+
+/-- THE BRANCHES OF `to_ip` / `to_si` (any type, any target map): an unlisted unit is returned as it is by the
+    types that do not check it and refused by the ones that do; a unit that is its own target comes back untouched;
+    every other listed unit is the `to_unit` conversion to its target, labelled with the target's name. -/
+theorem C06_to_sys_branches (T : UType) (targets : List Nat) (strict : Bool) (xs : List Rat) (u : String) :
+    (T.idx? u = none → strict = false → T.toSys targets strict xs u = .ok (xs, u)) ∧
+    (T.idx? u = none → strict = true → T.toSys targets strict xs u = .error Err.value) ∧
+    (∀ i, T.idx? u = some i → targets[i]? = some i → T.toSys targets strict xs u = .ok (xs, u)) ∧
+    (∀ i j ys, T.idx? u = some i → targets[i]? = some j → j ≠ i → T.toUnit xs (T.units.getD j "") u = .ok ys →
+      T.toSys targets strict xs u = .ok (ys, T.units.getD j "")) ∧
+    (∀ i j e, T.idx? u = some i → targets[i]? = some j → j ≠ i → T.toUnit xs (T.units.getD j "") u = .error e →
+      T.toSys targets strict xs u = .error e) := by
+  refine ⟨?_, ?_, ?_, ?_, ?_⟩
+  · intro h hs; simp [UType.toSys, h, hs]
+  · intro h hs; simp [UType.toSys, h, hs]
+  · intro i h ht; simp [UType.toSys, h, ht]
+  · intro i j ys h ht hne hy
+    simp only [UType.toSys, h, ht, hne, if_false]
+    rw [hy]
+  · intro i j e h ht hne hy
+    simp only [UType.toSys, h, ht, hne, if_false]
+    rw [hy]
+
+/-- No conversion of the pair has an offset. -/
+def offsetFree (c : Cert) : Bool :=
+  (List.range c.n).all fun i => (List.range c.n).all fun j => (c.pair i j).b == 0
+
+/-- NUMERIC EDGES, model side: for a type without offsets the conversion of every ordered pair is homogeneous,
+    `conv (k * x) = k * conv x`: relative accuracy (0.2 % / 2e-5, theorems above, stated for EVERY rational `x`) is
+    the same at 1e-30 and at 1e+25; an absolute rounding step in a formula is not such a map. -/
+theorem C06_scale_invariant (c : Cert) (hc : c ∈ allCerts) (ho : offsetFree c = true) {i j : Nat}
+    (hi : i < c.n) (hj : j < c.n) (k x : Rat) :
+    c.T.convIdx i j (k * x) = k * c.T.convIdx i j x := by
+  have h := C06_all_valid c hc
+  simp only [offsetFree, List.all_eq_true, List.mem_range, beq_iff_eq] at ho
+  have hb := ho i hi j hj
+  rw [Cert.convIdx_eq c h.1 hi hj, Cert.convIdx_eq c h.1 hi hj]
+  simp only [Aff.eval, hb]
+  ring
+
+/-- Exactly one rational base type has offsets (Temperature: 32 °F, 273.15 K); all others are homogeneous. -/
+theorem C06_offset_free_types :
+    (allCerts.filter fun c => !offsetFree c).map (·.T.units) = [["C", "F", "K"]] := by decide +kernel
+
+example : (renamed cert_Speed.T "WindSpeed" (.fin 0) .posInf).toUnit [10] "km/h" "m/s" = .ok [36] := by decide +kernel
+example : cert_Temperature.T.toUnit [0, 100] "C" "C" = .ok [0, 100] := by decide +kernel
+example : offsetFree cert_Energy = true := by decide +kernel
+
 /-! ### Non-vacuity -/
 
 example : cert_Energy ∈ allCerts := by simp [allCerts, certs1, certs2, certs3, certs4]
